@@ -46,6 +46,57 @@ def _ordered(cond, d1, d2):
     return (refs(l), refs(r)) == (([d2], [d1]) if flip else ([d1], [d2]))
 
 
+def _roles(fn):
+    """the local counters of a difference routine, found by what the result is filled from (names are not relied upon):
+    {result field: decl id of the one local the stored expression reads}"""
+    ret = None
+    for x in fn.walk():
+        if x.get("k") == "ReturnStmt" and kids(x):
+            r = _u(kids(x)[0])
+            if r is not None and r.get("k") == "DeclRefExpr":
+                ret = r["d"]
+    if ret is None:
+        raise AnalysisBroken("%s: result variable not found" % fn.name)
+    params = {p_["d"] for p_ in fn.params}
+    roles = {}
+    for x in fn.walk():
+        if x.get("k") == "BinaryOperator" and x.get("op") == "=":
+            l = _u(x["c"][0])
+            if l is None or l.get("k") != "MemberExpr":
+                continue
+            b, path = member_path(l)
+            if b is None or b.get("d") != ret or not path:
+                continue
+            loc = {y["d"] for y in walk(x["c"][1]) if y.get("k") == "DeclRefExpr" and y.get("dk") == "var" and y["d"] not in params and y["d"] != ret}
+            if len(loc) == 1:
+                roles.setdefault(path[-1], loc.pop())
+    return roles
+
+
+ROLE_OF = {"__ymd_diff": {"tgtm": "y", "tgtm2": "m", "tgtd": "d"}, "__ymcw_diff": {"tgtm": "y", "tgtm2": "m", "tgtd": "c", "tgtd2": "w"},
+           "__yd_diff": {"tgty": "y", "tgtd": "d"}, "__ywd_diff": {"tgty": "y", "tgtw": "c", "tgtd": "w"}}
+
+
+def _counters(fn):
+    roles = _roles(fn)
+    out = {}
+    for nm, fld in ROLE_OF[fn.name].items():
+        if fld not in roles:
+            raise AnalysisBroken("%s: no single local counter feeds the result field .%s" % (fn.name, fld))
+        out[nm] = roles[fld]
+    for nm in list(out):
+        if nm.endswith("2"):
+            if out[nm] != out[nm[:-1]]:
+                raise AnalysisBroken("%s: result fields .%s and .%s are not split from one counter" % (fn.name, ROLE_OF[fn.name][nm[:-1]], ROLE_OF[fn.name][nm]))
+            del out[nm]
+    return out
+
+
+def _isv(e, d):
+    e = _u(e)
+    return e is not None and e.get("k") == "DeclRefExpr" and e.get("d") == d
+
+
 def check_antisym(P, R, tu):
     rule = "RF-antisym"
     for name in DIFFS:
@@ -141,12 +192,16 @@ def check_linear(P, R, tu):
     for name, forms in want.items():
         fn = tu.func(name)
         d1, d2 = fn.params[0]["d"], fn.params[1]["d"]
+        C = _counters(fn)
+        byid = {C[v]: v for v in forms}
         first = {}
-        for x in fn.walk():
+        for x in sorted(fn.walk(), key=lambda n: n.get("i", 0)):
             if x.get("k") == "BinaryOperator" and x.get("op") == "=":
                 l = _u(x["c"][0])
-                if l is not None and l.get("k") == "DeclRefExpr" and l.get("n") in forms and l["n"] not in first:
-                    first[l["n"]] = _member_lin(fn, x["c"][1], d1, d2)
+                if l is not None and l.get("k") == "DeclRefExpr" and l.get("d") in byid and byid[l["d"]] not in first:
+                    first[byid[l["d"]]] = _member_lin(fn, x["c"][1], d1, d2)
+            elif x.get("k") == "Var" and x.get("d") in byid and kids(x) and byid[x["d"]] not in first:
+                first[byid[x["d"]]] = _member_lin(fn, kids(x)[0], d1, d2)
         for var, exp in forms.items():
             got = first.get(var)
             if got == exp:
@@ -156,7 +211,7 @@ def check_linear(P, R, tu):
         # the split of months into years and months uses one constant
         if name in ("__ymd_diff", "__ymcw_diff"):
             divs = sorted({const_of(x["c"][1]) for x in fn.walk() if x.get("k") == "BinaryOperator" and x.get("op") in ("/", "%") and
-                           _u(x["c"][0]) is not None and _u(x["c"][0]).get("n") == "tgtm"})
+                           _isv(x["c"][0], C["tgtm"])})
             if divs == [12]:
                 R.ob(rule, "%s: months split into years and months by 12" % name, True)
             else:
@@ -174,9 +229,10 @@ def check_borrow(P, R, tu):
     # ymd / ymcw: month borrow
     for name, nborrow in (("__ymd_diff", 2), ("__ymcw_diff", 1)):
         fn = tu.func(name)
-        adds = [x for x in fn.walk() if x.get("k") == "CompoundAssignOperator" and x.get("op") == "+=" and _u(x["c"][0]).get("n") == "tgtd"
+        C = _counters(fn)
+        adds = [x for x in fn.walk() if x.get("k") == "CompoundAssignOperator" and x.get("op") == "+=" and _isv(x["c"][0], C["tgtd"])
                 and _u(x["c"][1]) is not None and _u(x["c"][1]).get("k") == "CallExpr" and _u(x["c"][1]).get("callee") == "__get_mdays"]
-        decs = [x for x in fn.walk() if x.get("k") == "UnaryOperator" and x.get("op") == "--" and _u(x["c"][0]).get("n") == "tgtm"]
+        decs = [x for x in fn.walk() if x.get("k") == "UnaryOperator" and x.get("op") == "--" and _isv(x["c"][0], C["tgtm"])]
         steps = [x for x in fn.walk() if x.get("k") == "IfStmt" and _u(x["c"][0]) is not None and _u(x["c"][0]).get("k") == "BinaryOperator"
                  and _u(x["c"][0]).get("op") == "<" and _u(_u(x["c"][0])["c"][0]) is not None and _u(_u(x["c"][0])["c"][0]).get("k") == "UnaryOperator"
                  and _u(_u(x["c"][0])["c"][0]).get("op") == "--" and const_of(_u(x["c"][0])["c"][1]) == 1]
@@ -209,10 +265,10 @@ def check_borrow(P, R, tu):
                     for part in (_u(c["c"][0]), _u(c["c"][1])):
                         if part is None or part.get("k") != "BinaryOperator":
                             continue
-                        names = {y.get("n") for y in walk(part) if y.get("k") == "DeclRefExpr"}
-                        if part.get("op") == "<" and "tgtd" in names and const_of(part["c"][1]) in ((0,) if name == "__ymd_diff" else (0, 7)):
+                        names = {y.get("d") for y in walk(part) if y.get("k") == "DeclRefExpr" and y.get("dk") in ("var", "parm")}
+                        if part.get("op") == "<" and C["tgtd"] in names and const_of(part["c"][1]) in ((0,) if name == "__ymd_diff" else (0, 7)):
                             short = True
-                        if part.get("op") in ("!=", ">") and names == {"tgtm"} and const_of(part["c"][1]) == 0:
+                        if part.get("op") in ("!=", ">") and names == {C["tgtm"]} and const_of(part["c"][1]) == 0:
                             month = True
                     cond_ok = short and month
                 break
@@ -223,37 +279,42 @@ def check_borrow(P, R, tu):
                       "the month count is not zero" % name)
     # ywd: week = 7 days, year = __get_isowk weeks
     fn = tu.func("__ywd_diff")
-    ok7 = any(x.get("k") == "CompoundAssignOperator" and x.get("op") == "+=" and _u(x["c"][0]).get("n") == "tgtd" and const_of(x["c"][1]) == 7
+    C = _counters(fn)
+    ok7 = any(x.get("k") == "CompoundAssignOperator" and x.get("op") == "+=" and _isv(x["c"][0], C["tgtd"]) and const_of(x["c"][1]) == 7
               for x in fn.walk())
-    okw = any(x.get("k") == "CompoundAssignOperator" and x.get("op") == "+=" and _u(x["c"][0]).get("n") == "tgtw" and
+    okw = any(x.get("k") == "CompoundAssignOperator" and x.get("op") == "+=" and _isv(x["c"][0], C["tgtw"]) and
               _u(x["c"][1]) is not None and _u(x["c"][1]).get("k") == "CallExpr" and _u(x["c"][1]).get("callee") == "__get_isowk" for x in fn.walk())
-    decs = {(_u(x["c"][0]).get("n")) for x in fn.walk() if x.get("k") == "UnaryOperator" and x.get("op") == "--"}
+    decs = {(_u(x["c"][0]).get("d")) for x in fn.walk() if x.get("k") == "UnaryOperator" and x.get("op") == "--"}
     # the year given up is the one before the later operand's: d1.y + tgty after the decrement, or d2.y - 1
     d1, d2 = fn.params[0]["d"], fn.params[1]["d"]
     for x in fn.calls("__get_isowk"):
         a = _u(call_args(x)[0])
         lf = _member_lin(fn, a, d1, d2)
         names = {y.get("n") for y in walk(a) if y.get("k") == "DeclRefExpr"}
-        dec = [y for y in fn.walk() if y.get("k") == "UnaryOperator" and y.get("op") == "--" and _u(y["c"][0]).get("n") == "tgty"]
-        form1 = a is not None and a.get("k") == "BinaryOperator" and a.get("op") == "+" and {expr_text(_u(a["c"][0])), expr_text(_u(a["c"][1]))} == {"d1.y", "tgty"} \
-            and dec and dec[0]["i"] < x["i"]
+        dec = [y for y in fn.walk() if y.get("k") == "UnaryOperator" and y.get("op") == "--" and _isv(y["c"][0], C["tgty"])]
+        form1 = False
+        if a is not None and a.get("k") == "BinaryOperator" and a.get("op") == "+":
+            for m_, v_ in ((a["c"][0], a["c"][1]), (a["c"][1], a["c"][0])):
+                if _member_lin(fn, m_, d1, d2) == {(1, "y"): 1} and _isv(v_, C["tgty"]) and dec and dec[0]["i"] < x["i"]:
+                    form1 = True
         form2 = lf == {(2, "y"): 1, 1: -1}
         if not (form1 or form2):
             okw = False
-    if ok7 and okw and decs == {"tgtw", "tgty"}:
+    if ok7 and okw and decs == {C["tgtw"], C["tgty"]}:
         R.ob(rule, "__ywd_diff: a borrowed week is 7 days, a borrowed year is __get_isowk weeks", True)
     else:
         R.finding(rule, fn, "week / year borrow", "__ywd_diff must pair tgtw-- with tgtd += 7 and tgty-- with tgtw += __get_isowk(..)")
     # yd: year = 365 (+ leap day)
     fn = tu.func("__yd_diff")
+    C = _counters(fn)
     oky = False
     for x in fn.walk():
-        if x.get("k") == "CompoundAssignOperator" and x.get("op") == "+=" and _u(x["c"][0]).get("n") == "tgtd":
+        if x.get("k") == "CompoundAssignOperator" and x.get("op") == "+=" and _isv(x["c"][0], C["tgtd"]):
             r = _u(x["c"][1])
             if r is not None and r.get("k") == "BinaryOperator" and r.get("op") == "+" and const_of(r["c"][0]) == 365 and \
                     any(y.get("k") == "CallExpr" and y.get("callee") == "__leapp" for y in walk(r["c"][1])):
                 oky = True
-    decy = any(x.get("k") == "UnaryOperator" and x.get("op") == "--" and _u(x["c"][0]).get("n") == "tgty" for x in fn.walk())
+    decy = any(x.get("k") == "UnaryOperator" and x.get("op") == "--" and _isv(x["c"][0], C["tgty"]) for x in fn.walk())
     if oky and decy:
         R.ob(rule, "__yd_diff: a borrowed year is 365 days plus the leap day", True)
     else:
